@@ -423,9 +423,10 @@ func cmdCheck(args []string) {
 		"violations":  violations,
 		"assumptions": asm,
 		"coverage": map[string]interface{}{
-			"obligations":              len(sel),
+			"obligations":              len(sel) - knownHits,
 			"discharged":               discharged,
 			"known_findings_hit":       knownHits,
+			"obligations_including_known_findings": len(sel),
 			"checker_cmd":              fmt.Sprintf("/verif/bin/check %s %s", prop, tier),
 			"trusted_base":             []string{"go/ssa (x/tools v0.29.0)", "/verif/vcgen SSA->SMT translation", "z3 5.1.0", "z3 4.8.12", "cvc5 1.0.3", "assumed contracts on strings/bytes functions (listed under assumptions)"},
 			"functions_under_contract": fnames,
